@@ -188,7 +188,6 @@ Proof.
     + intros _. exists (toR [SGap (rp_hs p + 1) n; SHb (first_sn chs) (last_sn chs) (rp_hbc p + 1)]), (first_sn chs).
       split; [apply in_or_app; right; left; reflexivity|]. destruct hb_fields as (_ & _ & X3). rewrite X3. right. left. reflexivity.
     + repeat split; try assumption; try lia.
-      * destruct F as [[F1 F2]|[F1 F2]]; right; split; try lia; assumption.
   - assert (Hn : n = rp_hs p + 1) by lia.
     destruct (lookup_relevant p n chs) as [c|] eqn:El.
     + unfold gen_hb. apply lookup_relevant_in in El. destruct El as (Hcin & _ & _).
@@ -203,7 +202,6 @@ Proof.
       * intros _. exists (toR [SData c; SHb (first_sn chs) (last_sn chs) (rp_hbc p + 1)]), (first_sn chs).
         split; [apply in_or_app; right; left; reflexivity|]. destruct hb_fields as (_ & _ & X3). rewrite X3. right. left. reflexivity.
       * repeat split; try assumption; try lia.
-        destruct F as [[F1 F2]|[F1 F2]]; right; split; try lia; assumption.
     + match goal with |- context [unsent_rel f cf now chs ?q ?a] => specialize (IH q a lo) end.
       cbn [rp_hs rp_hbc rp_hbt rp_fr set_hs fst snd] in IH.
       destruct (Z.ltb_spec (rp_hs p) n); [|lia].
@@ -258,7 +256,6 @@ Proof.
     + intros _. exists (toR [SData c; SHb (first_sn chs) (last_sn chs) (rp_hbc p0 + 1)]), (first_sn chs).
       split; [apply in_or_app; right; left; reflexivity|]. destruct hb_fields as (_ & _ & X3). rewrite X3. right. left. reflexivity.
     + repeat split; try assumption; try lia.
-      destruct D as [[D1 D2]|[D1 D2]]; right; split; try lia; assumption.
   - specialize (IH p0 (acc ++ [toR [SGap n (n + 1)]]) lo).
     destruct IH as (A & B & C & D & E); try lia; try assumption.
     + apply Forall_app; split; [rewrite E1; assumption|].
@@ -312,7 +309,7 @@ Proof.
       assert (Hhs1 : rp_hs p1 = last).
       { pose proof (nu_none chs _ Hdone last (KC_last_in chs last HK ltac:(lia))). lia. }
       repeat split; try assumption; try lia.
-      intros X1 X2. apply G; assumption.
+      all: try (intros X1 X2; apply G; assumption).
     - pose proof (nu_none chs (rp_hs p) En) as Hnone.
       assert (Hhs' : rp_hs p = last).
       { destruct (Z.eq_dec last 0) as [->|Hne]; [lia|]. pose proof (Hnone last (KC_last_in chs last HK ltac:(lia))). lia. }
@@ -324,10 +321,10 @@ Proof.
         subst m. apply Z.ltb_ge in Eu. lia.
       + destruct (time_for_hb p now) eqn:Et; unfold gen_hb in E1; injection E1 as <- <-; cbn.
         * repeat split; try lia.
-          -- constructor; [|constructor]. split; [reflexivity|]. constructor; [|constructor]. hb_sub.
-          -- intros _. exists (toR [SHb (first_sn chs) (last_sn chs) (rp_hbc p + 1)]), (first_sn chs).
-             split; [left; reflexivity|]. destruct hb_fields as (_ & _ & X3). rewrite X3. left. reflexivity.
-          -- right. split; [lia|reflexivity].
+          all: try (constructor; [|constructor]; split; [reflexivity|]; constructor; [|constructor]; hb_sub).
+          all: try (intros _; exists (toR [SHb (first_sn chs) (last_sn chs) (rp_hbc p + 1)]), (first_sn chs);
+                    split; [left; reflexivity|]; destruct hb_fields as (_ & _ & X3); rewrite X3; left; reflexivity).
+          all: try (right; split; [lia|reflexivity]).
         * repeat split; try lia; try constructor; try (left; split; reflexivity).
           intros _ _ Hper. unfold time_for_hb in Et. apply Z.leb_gt in Et. lia. }
   destruct H1 as (A & B & C & D & E & F & G & T & U).
@@ -335,13 +332,222 @@ Proof.
   lazy zeta in H. destruct H as (H1 & H2 & H3 & H4 & H5); [lia|].
   rewrite req_loop_hs.
   repeat split; try assumption; try lia.
-  - destruct E as [[E1' E2']|[E1' E2']], H4 as [[H41 H42]|[H41 H42]].
-    + left. split; congruence.
-    + right. split; [lia|assumption].
-    + right. split; [lia|congruence].
-    + right. split; [lia|assumption].
-  - intros Hex. rewrite F, G in H5. specialize (H5 Hex). lia.
-  - intros X1 X2 X3. specialize (T X1 X2 X3). lia.
-  - intros X1 X2. specialize (U X1 X2). lia.
+  all: try (destruct E as [[E1' E2']|[E1' E2']], H4 as [[H41 H42]|[H41 H42]];
+            [left; split; congruence|right; split; [lia|assumption]|right; split; [lia|congruence]|right; split; [lia|assumption]]).
+  all: try (intros (n & Hn1 & Hn2 & Hn3);
+            assert (X : rp_hbc p1 < rp_hbc (fst (req_loop (S (length (rp_req p1))) cf now chs p1 out1)))
+              by (apply H5; exists n; rewrite F, G; auto); lia).
+  all: try (intros X1 X2 X3; specialize (T X1 X2 X3); lia).
+  all: try (intros X1 X2; specialize (U X1 X2); lia).
 Qed.
 End WriterLive.
+
+(* ------------------------------------------------------------------ the class at state level *)
+Definition KI (s : state) : Prop :=
+  KC (s_changes s) (s_last s) /\
+  match s_rp s with Some p => 0 <= rp_hs p <= s_last s /\ 0 <= rp_fr p <= s_last s | None => True end.
+
+Definition KS (s : state) : Prop := GS s /\ NInv s /\ KI s.
+
+Lemma unsent_rel_hsb chs last fuel cf now : KC chs last -> forall p acc, 0 <= rp_hs p <= last ->
+  0 <= rp_hs (fst (unsent_rel fuel cf now chs p acc)) <= last.
+Proof.
+  intros HK. induction fuel as [|f IH]; intros p acc Hhs; cbn [unsent_rel]; [assumption|].
+  destruct (next_unsent p chs) as [n|] eqn:En; [|assumption].
+  apply next_unsent_spec in En. destruct En as (Hin & Hlt & _). pose proof (KC_sns chs last n HK Hin) as Hb.
+  destruct (rp_hs p + 1 <? n) eqn:Eh.
+  - apply Z.ltb_lt in Eh. unfold gen_hb. apply IH. rewrite set_hs_hs by (cbn; lia). lia.
+  - destruct (lookup_relevant p n chs) as [c|]; [|apply IH; rewrite set_hs_hs by lia; lia].
+    unfold gen_hb. destruct (1 <? nfrags cf c); apply IH; rewrite set_hs_hs by (cbn; lia); lia.
+Qed.
+
+Lemma write_be_hsb chs last fuel cf : KC chs last -> forall p acc, 0 <= rp_hs p <= last ->
+  0 <= rp_hs (fst (write_be_loop fuel cf chs p acc)) <= last.
+Proof.
+  intros HK. induction fuel as [|f IH]; intros p acc Hhs; cbn [write_be_loop]; [assumption|].
+  destruct (next_unsent p chs) as [n|] eqn:En; [|assumption].
+  apply next_unsent_spec in En. destruct En as (Hin & Hlt & _). pose proof (KC_sns chs last n HK Hin) as Hb.
+  destruct (rp_hs p + 1 <? n) eqn:Eh.
+  - apply Z.ltb_lt in Eh. apply IH. rewrite set_hs_hs by lia. lia.
+  - destruct (lookup_relevant p n chs) as [c|]; [|apply IH; rewrite set_hs_hs by lia; lia].
+    destruct (1 <? nfrags cf c); apply IH; rewrite set_hs_hs by lia; lia.
+Qed.
+
+Lemma write_rel_hsb chs last cf now p : KC chs last -> 0 <= rp_hs p <= last ->
+  0 <= rp_hs (fst (write_rel cf now chs p)) <= last.
+Proof.
+  intros HK Hhs. unfold write_rel.
+  match goal with |- context [let '(p1, out1) := ?X in _] => destruct X as [p1 out1] eqn:E1 end.
+  rewrite req_loop_hs.
+  destruct (next_unsent p chs).
+  - replace p1 with (fst (unsent_rel (S (2 * length chs)) cf now chs p [])) by (rewrite E1; reflexivity).
+    apply unsent_rel_hsb; assumption.
+  - destruct (negb _); [inversion E1; subst; assumption|].
+    destruct (time_for_hb p now); unfold gen_hb in E1; inversion E1; subst; assumption.
+Qed.
+
+Lemma write_message_hsb chs last cf now p : KC chs last -> 0 <= rp_hs p <= last ->
+  0 <= rp_hs (fst (write_message cf now chs p)) <= last.
+Proof.
+  intros HK Hhs. unfold write_message. destruct (rp_rel p); [apply write_rel_hsb|apply write_be_hsb]; assumption.
+Qed.
+
+Lemma on_acknack_hsb chs last cf now p base set count : KC chs last -> 0 <= rp_hs p <= last ->
+  0 <= rp_hs (fst (fst (on_acknack cf now chs p base set count))) <= last.
+Proof.
+  intros HK Hhs. unfold on_acknack. destruct (rp_rel p && _); [|assumption].
+  match goal with |- context [write_rel cf now chs ?q] =>
+    pose proof (write_rel_hsb chs last cf now q HK) as H; destruct (write_rel cf now chs q) as [p2 out] end.
+  cbn [fst] in *. apply H. assumption.
+Qed.
+
+Lemma on_nackfrag_hs cf chs p sn base set count : rp_hs (fst (on_nackfrag cf chs p sn base set count)) = rp_hs p.
+Proof. unfold on_nackfrag. destruct (rp_rel p && _); [|reflexivity]. destruct (find_change sn chs); reflexivity. Qed.
+
+Lemma KI_poke cf s : KI s -> KI (poke cf s).
+Proof.
+  intros [HK Hp]. unfold poke. destruct (s_rp s) as [p|] eqn:Ep; [|split; [assumption|rewrite Ep; exact I]].
+  pose proof (write_message_hsb (s_changes s) (s_last s) cf (s_now s) p HK (proj1 Hp)) as Hb.
+  pose proof (write_message_static cf (s_now s) (s_changes s) p) as Hst.
+  destruct (write_message cf (s_now s) (s_changes s) p) as [p1 out]. cbn [fst] in *.
+  apply static_fr in Hst. destruct Hst as (S1 & _). split; [exact HK|]. cbn. rewrite S1. tauto.
+Qed.
+
+Lemma KI_deliver_sub_W cf s m : KI s -> KI (deliver_sub_W cf s m).
+Proof.
+  intros [HK Hp]. unfold deliver_sub_W. destruct (s_rp s) as [p|] eqn:Ep; [|split; [assumption|rewrite Ep; exact I]].
+  assert (Same : KI s) by (split; [assumption|rewrite Ep; assumption]).
+  destruct m; try exact Same.
+  - pose proof (on_acknack_hsb (s_changes s) (s_last s) cf (s_now s) p base set count HK (proj1 Hp)) as Hb.
+    pose proof (on_acknack_static cf (s_now s) (s_changes s) p base set count) as Hst.
+    destruct (on_acknack cf (s_now s) (s_changes s) p base set count) as [[p1 out] sm]. cbn [fst] in *.
+    apply static_fr in Hst. destruct Hst as (S1 & _).
+    destruct (sm && _); (split; [exact HK|]); cbn; rewrite S1; tauto.
+  - pose proof (on_nackfrag_hs cf (s_changes s) p sn base set count) as Hb.
+    pose proof (on_nackfrag_static cf (s_changes s) p sn base set count) as Hst.
+    destruct (on_nackfrag cf (s_changes s) p sn base set count) as [p1 out]. cbn [fst] in *.
+    apply static_fr in Hst. destruct Hst as (S1 & _). split; [exact HK|]. cbn. rewrite S1, Hb. tauto.
+Qed.
+
+Lemma KI_deliver_dgram cf s d : KI s -> KI (deliver_dgram cf s d).
+Proof.
+  intros H. unfold deliver_dgram. destruct (dg_toR d).
+  - destruct (s_rdead s); [assumption|]. destruct (s_rd s) as [r|]; [|assumption]. destruct (rd_alive r); [|assumption].
+    destruct (deliver_subs_R _ _ _ _). exact H.
+  - revert s H. induction (dg_subs d) as [|m t IH]; intros s H; cbn [fold_left]; [assumption|].
+    apply IH. apply KI_deliver_sub_W. assumption.
+Qed.
+
+Lemma KI_set_net s n : KI s -> KI (set_net s n).
+Proof. intros H. exact H. Qed.
+
+Lemma KS_poke cf s : KS s -> KS (poke cf s).
+Proof.
+  intros (HG & HN & HK). split; [apply GS_poke; assumption|]. split; [|apply KI_poke; assumption].
+  destruct (s_rp s) as [p|] eqn:Ep.
+  - intros Hn. rewrite poke_rd in Hn. destruct (HN Hn) as [_ Hp]. congruence.
+  - rewrite poke_rp_none by assumption. assumption.
+Qed.
+
+Lemma KS_deliver cf s d rest : KS s -> In d (s_net s) -> (forall x, In x rest -> In x (s_net s)) ->
+  KS (deliver_dgram cf (set_net s rest) d).
+Proof.
+  intros (HG & HN & HK) Hd Hrest. split; [apply GS_deliver; assumption|]. split.
+  - intros Hn. pose proof (deliver_dgram_rd cf (set_net s rest) d) as Hrd. cbn [s_rd set_net] in Hrd.
+    destruct (s_rd s) as [r|] eqn:Er; [destruct Hrd as [r' Hr']; congruence|].
+    destruct (HN Er) as [Hnet _]. rewrite Hnet in Hd. contradiction.
+  - apply KI_deliver_dgram. exact HK.
+Qed.
+
+Lemma KS_pump cf fuel : forall s n, KS s -> KS (fst (pump fuel cf s n)).
+Proof.
+  induction fuel as [|f IH]; intros s n H; cbn [pump]; [assumption|].
+  destruct (s_net s) as [|d t] eqn:En; [assumption|].
+  apply IH. apply KS_poke. apply KS_deliver; [assumption|rewrite En; left; reflexivity|].
+  intros x Hx. rewrite En. right. assumption.
+Qed.
+
+Lemma last_sn_char l m : (forall c, In c l -> c_sn c <= m) -> In m (sns l) -> last_sn l = m.
+Proof.
+  intros Hle Hin. unfold last_sn. destruct (zmax_list (sns l)) as [m'|] eqn:E.
+  - apply zmax_list_spec in E. destruct E as [Hin' Hall]. rewrite Forall_forall in Hall. specialize (Hall m Hin).
+    unfold sns in Hin'. apply in_map_iff in Hin'. destruct Hin' as [c [<- Hc]]. specialize (Hle c Hc). lia.
+  - apply zmax_list_none in E. rewrite E in Hin. contradiction.
+Qed.
+
+Lemma live_not_del cf a : live_act cf a = true ->
+  match a with ARemove _ | ADelReader | ADelPart => False | _ => True end.
+Proof. destruct a; cbn; auto; discriminate. Qed.
+
+(* the class is closed under every action of the live class: any history depth *)
+Lemma KS_act cf s a : live_act cf a = true -> KS s -> KS (fst (act cf s a)).
+Proof.
+  intros Ha H. pose proof H as (HG & HN & HK).
+  assert (HG1 : GS (fst (act cf s a))) by (apply GS_act; assumption).
+  split; [exact HG1|].
+  destruct a; try discriminate; cbn [act] in *.
+  - (* AWrite *)
+    pose proof (do_write_frame cf s key len sum) as (F1 & F2 & F3 & F4 & F5 & F6 & F7).
+    pose proof (do_write_spec cf s key len sum) as Hw.
+    destruct (do_write cf s key len sum) as [s1 code]. cbn [fst snd] in *.
+    destruct Hw as [[-> _]|[chs1 (W1 & W2 & W3 & W4 & W5 & W6)]]; [split; assumption|].
+    split.
+    + intros Hn. rewrite F2 in Hn. destruct (HN Hn) as [A B]. rewrite F3, F1. tauto.
+    + destruct HK as [(K0 & Kb & Kl) Kp]. split.
+      * split; [lia|]. split.
+        -- intros c Hc. rewrite W2 in Hc. apply in_app_or in Hc. destruct Hc as [Hc|[<-|[]]].
+           ++ specialize (Kb c (W1 c Hc)). lia.
+           ++ cbn. lia.
+        -- rewrite W2, W3. apply last_sn_char.
+           ++ intros c Hc. apply in_app_or in Hc. destruct Hc as [Hc|[<-|[]]]; [specialize (Kb c (W1 c Hc)); lia|cbn; lia].
+           ++ rewrite sns_app. apply in_or_app. right. left. reflexivity.
+      * rewrite F1, W3. destruct (s_rp s); [lia|exact I].
+  - (* ATick *) split; [intros Hn; cbn in *; apply HN; assumption|exact HK].
+  - (* ADeliver *) destruct (nth_error (s_net s) i) as [d|] eqn:E; [|split; assumption]. cbn [fst] in *.
+    apply (KS_deliver cf s d (remove_nth i (s_net s)) H);
+      [eapply nth_error_In; eassumption|intros x Hx; eapply remove_nth_in; exact Hx].
+  - (* ADrop *) destruct (nth_error (s_net s) i) as [d|] eqn:E; [|split; assumption]. cbn [fst] in *. split; [|exact HK].
+    intros Hn. cbn in *. destruct (HN Hn) as [A B]. rewrite A in E. destruct i; discriminate.
+  - (* ADup *) destruct (nth_error (s_net s) i) as [d|] eqn:E; [|split; assumption]. cbn [fst] in *. split.
+    + intros Hn.
+      pose proof (deliver_dgram_rd cf (set_net s (remove_nth i (s_net s))) d) as Hd1. cbn [s_rd set_net] in Hd1.
+      destruct (s_rd s) as [r|] eqn:Er.
+      * destruct Hd1 as [r1 Hr1].
+        pose proof (deliver_dgram_rd cf (poke cf (deliver_dgram cf (set_net s (remove_nth i (s_net s))) d)) d) as Hd2.
+        rewrite poke_rd, Hr1 in Hd2. destruct Hd2 as [r2 Hr2]. congruence.
+      * destruct (HN Er) as [A _]. rewrite A in E. destruct i; discriminate.
+    + apply KI_deliver_dgram. apply KI_poke. apply KI_deliver_dgram. exact HK.
+  - (* APump *) pose proof (KS_pump cf pump_fuel s 0 H) as Hp.
+    destruct (pump pump_fuel cf s 0) as [s1 n]. cbn [fst] in *. destruct Hp as (_ & A & B). split; assumption.
+  - (* ATake *) destruct (s_rd s) as [r|] eqn:Er; [|split; assumption]. destruct (rd_alive r); [|split; assumption].
+    cbn [fst] in *. split; [intros Hn; cbn in Hn; discriminate|exact HK].
+  - (* AMatch *) destruct (s_rd s) as [r|] eqn:Er; [split; assumption|].
+    destruct (HN Er) as [Hnet Ep]. rewrite Ep in *. rewrite orb_false_r in *.
+    destruct (s_rdead s); [split; assumption|].
+    destruct (rxo_ok cf rel tl); cbn [fst] in *.
+    + split; [intros Hn; rewrite poke_rd in Hn; cbn in Hn; discriminate|].
+      apply KI_poke. destruct HK as [HKC _]. split; [exact HKC|]. cbn.
+      destruct HKC as (K0 & Kb & Kl). rewrite Kl. destruct tl; lia.
+    + split; [intros Hn; cbn in Hn; discriminate|]. destruct HK as [HKC _]. split; [exact HKC|]. cbn. rewrite Ep. exact I.
+  - (* AWfa *) destruct (is_acked (s_rp s) (s_last s)); cbn [fst] in *; (split; [exact HN|exact HK]).
+  - (* AWfaPoll *) destruct (poll (s_waits s)). cbn [fst] in *. split; [exact HN|exact HK].
+  - (* AWfh *) destruct (s_rd s) as [r|] eqn:Er; [|split; assumption]. destruct (negb (rd_alive r)); [split; assumption|].
+    destruct (negb (rd_tl r)); [split; assumption|].
+    destruct (hist_received (rd_wp r)); cbn [fst] in *; (split; [intros Hn; cbn in Hn; discriminate|exact HK]).
+  - (* AWfhPoll *) destruct (s_rd s) as [r|] eqn:Er; [|split; assumption]. destruct (poll (rd_hwaits r)). cbn [fst] in *.
+    split; [intros Hn; cbn in Hn; discriminate|exact HK].
+  - split; assumption.
+  - split; assumption.
+Qed.
+
+Lemma KS_step cf s a : live_act cf a = true -> KS s -> KS (fst (step cf s a)).
+Proof.
+  intros Ha H. unfold step. pose proof (KS_act cf s a Ha H) as H1.
+  destruct (act cf s a) as [s1 o]. cbn [fst] in *. apply KS_poke. assumption.
+Qed.
+
+Lemma KS_init : KS init.
+Proof.
+  split; [apply GS_init|]. split; [apply init_NInv|]. split; [|exact I].
+  split; [cbn; lia|]. split; [intros c []|reflexivity].
+Qed.
